@@ -20,7 +20,7 @@ META = {
     "bounds": {"quick": {"n_steps": "1-2", "dim": "1-2", "implicit": "dim 1, coefficients eps^0..eps^3"},
                "thorough": {"n_steps": "1-3", "dim": "1-2", "implicit": "dim 1-2"}},
     "outside": "curved constraints end to end except on the concrete circle problem of the oracle-roots case (solver contract: C04), "
-               "implicit integrators on dense / SoftAbs position-dependent metrics, "
+               "implicit integrators on position-dependent (Riemannian) metrics (series normal forms of forward + reversed step do not finish), "
                "'up to solver tolerance' idealised to exact arithmetic, implicit integrators beyond O(eps^4), targets "
                "that are not cubic polynomials",
     "stubs": ["LAPACK stubs", "SIN/COS uninterpreted with Pythagoras + parity/addition instances"],
@@ -180,14 +180,9 @@ def cases(tier):
                 continue
             G(f"series_rev/{ik}/{kind}/{dim}", "series_reversible", {"ikind": ik, "kind": kind, "dim": dim, "mkind": mkind, "n": 1},
               timeout_s=1500)
-    # position-dependent metrics at the start position q = 0 (no loss of generality for polynomial models with free coefficients)
-    riem = [("implicit_leapfrog", "cholesky", 1), ("implicit_leapfrog", "diagonal", 1)]
-    if th:
-        riem += [("implicit_leapfrog", "scalar", 1), ("implicit_leapfrog", "scalar", 2), ("implicit_midpoint", "diagonal", 1),
-                 ("implicit_midpoint", "scalar", 1)]
-    for ik, kind, dim in riem:
-        G(f"series_rev_origin/{ik}/{kind}/{dim}", "series_reversible", {"ikind": ik, "kind": kind, "dim": dim, "mkind": "diag", "n": 1, "origin": True},
-          timeout_s=1500)
+    # (position-dependent metrics: forward + reversed implicit step with translation-closed general models at q = 0 did not finish
+    # in 15 min per case; the single-step obligations of C06 (order) and C03 (symplecticity) do - reversibility on Riemannian
+    # metrics stays outside this check's claim)
     return out
 
 
